@@ -432,6 +432,65 @@ func runC07(c *Ctx) {
 		})
 		c.Check(ok, "C07-R4", "GetChecksForEntry:isEnabled(..., pr.locked)", gce.Decl.Pos(), "passes the block's locked flag", "parsedRule.isEnabled does not receive the parsed rule's own locked flag")
 	}
+	// every parsed rule that matches the entry gets its own enable decision
+	if gce := c.MustFunc("C07-R4", "internal/config.Config.GetChecksForEntry"); gce != nil {
+		info := gce.Pkg.TypesInfo
+		pie := p.Func("internal/config.parsedRule.isEnabled")
+		var loop *ast.RangeStmt
+		var call *ast.CallExpr
+		ast.Inspect(gce.Decl.Body, func(n ast.Node) bool {
+			if rs, ok := n.(*ast.RangeStmt); ok {
+				ast.Inspect(rs.Body, func(m ast.Node) bool {
+					if cl, ok := m.(*ast.CallExpr); ok && pie != nil && Callee(info, cl) == pie.Obj {
+						loop, call = rs, cl
+					}
+					return true
+				})
+			}
+			return true
+		})
+		if loop == nil {
+			c.Bad("C07-R4", "GetChecksForEntry:decision loop", gce.Decl.Pos(), "no loop calls parsedRule.isEnabled")
+		} else {
+			pm := parentMap(loop)
+			bad := ""
+			ast.Inspect(loop.Body, func(n ast.Node) bool {
+				b, ok := n.(*ast.BranchStmt)
+				if !ok || b.Pos() > call.Pos() {
+					return true
+				}
+				onlyIsMatch := false
+				for _, a := range lexicalGuards(pm, b, loop) {
+					if cl, ok := ast.Unparen(a.E).(*ast.CallExpr); ok && !a.Truth && isCallTo(info, cl, "internal/config.isMatch") {
+						onlyIsMatch = true
+					}
+				}
+				if !onlyIsMatch {
+					bad = p.Pos(b.Pos())
+				}
+				return true
+			})
+			c.Check(bad == "", "C07-R4", "GetChecksForEntry:every matching parsed rule reaches its own isEnabled decision", loop.Pos(), "only !isMatch skips",
+				"a parsed rule can be skipped at "+bad+" before its own enable decision (e.g. de-duplicated against an unlocked twin that a comment disabled)")
+			// the append is guarded by that decision
+			fl := p.NewFlow(gce)
+			apps := fl.Find(func(n ast.Node) bool {
+				as, ok := n.(*ast.AssignStmt)
+				if !ok || len(as.Rhs) != 1 {
+					return false
+				}
+				cl, ok := as.Rhs[0].(*ast.CallExpr)
+				return ok && exprStr(cl.Fun) == "append" && len(cl.Args) == 2 && fieldSel(info, cl.Args[1], "internal/config.parsedRule", "check")
+			})
+			for _, a := range apps {
+				dom := fl.Dominated(a.Site, nil, func(at Atom) bool {
+					cl, ok := ast.Unparen(at.E).(*ast.CallExpr)
+					return ok && at.Truth && pie != nil && Callee(info, cl) == pie.Obj
+				})
+				c.Check(dom, "C07-R4", "GetChecksForEntry:check appended only when isEnabled", a.Inner.Pos(), "guarded", "a check is scheduled without a positive isEnabled decision")
+			}
+		}
+	}
 	if pie := c.MustFunc("C07-R4", "internal/config.parsedRule.isEnabled"); pie != nil {
 		info := pie.Pkg.TypesInfo
 		sig := pie.Obj.Type().(*types.Signature)
